@@ -64,12 +64,23 @@ fn instances(thorough: bool) -> Vec<Inst> {
     for n in 1..=2usize {
         for pat in 0..(1usize << (2 * n)) {
             reg!(l, "C14", c14_hyperrectangle, "hyperrectangle, place_axis_bounds, contains", false, false, [[n, pat]]);
+            // finite bounds that are exactly 0.0
+            for z in 1..(1usize << (2 * n)) {
+                if z & pat == 0 {
+                    reg!(l, "C14", c14_hyperrectangle, "hyperrectangle, place_axis_bounds, contains", false, false, [[n, pat, z]]);
+                }
+            }
         }
     }
     for n in 1..=3usize {
         for axis in 0..n {
             for pat in 0..4usize {
                 reg!(l, "C14", c14_axis_bounds, "axis_bounds, place_axis_bounds, contains, distance_raw", false, false, [[n, axis, pat]]);
+                for z in 1..4usize {
+                    if z & pat == 0 {
+                        reg!(l, "C14", c14_axis_bounds, "axis_bounds, place_axis_bounds, contains, distance_raw", false, false, [[n, axis, pat, z]]);
+                    }
+                }
             }
         }
     }
